@@ -1,7 +1,7 @@
 (** extraction of the C17 model: the storage machine (as-is) and the layout specification, 64-bit words *)
 Require Import FastZ.
-From Dashu Require Import Base.Prelude Base.Words Int.StorageModel Int.StorageOps2 Int.StorageOps3 Int.ScratchModel.
-From DashuGen Require Import StorageGen StorageGen4.
+From Dashu Require Import Base.Prelude Base.Words Int.StorageModel Int.StorageOps2 Int.StorageOps3 Int.StorageOps5 Int.ScratchModel.
+From DashuGen Require Import StorageGen StorageGen4 StorageGen5.
 Definition w64 : Z := 64.
 Definition maxcap64 : Z := gen_max_capacity (2 ^ 64 - 1) 64.   (* Buffer::MAX_CAPACITY, regenerated from buffer.rs *)
 Definition step64 := step w64 maxcap64.
@@ -11,6 +11,9 @@ Definition step2_64 (sw : bool) := step2 w64 maxcap64 (gk_inst w64 sw).
 (** the machine of round 4: sqrt / sqrt_rem, ring steps, signed bit operations and shifts, the parsers, the chunk round trip
     (what root::sqrt_rem leaves in the input copy when only the root is wanted is never read: zeros) *)
 Definition step3_64 (sw : bool) := step3 w64 maxcap64 (gk_inst w64 sw) (fun _ => 0).
+(** the machine of round 5: + the parser of texts of any length in a radix that is not a power of two (word / chunk / divide
+    and conquer over the squared radix powers) as one step *)
+Definition step5_64 (sw : bool) := step5 w64 maxcap64 (gk_inst w64 sw) (fun _ => 0).
 Definition drop_all64 := drop_all.
 Definition layout_ok64 := layout_ok_b w64 maxcap64.
 Definition repr_ok64 := repr_ok_b w64 maxcap64.
@@ -24,5 +27,5 @@ Definition scratch_demand (la lb : Z) : Z := dgen (S (Z.to_nat (Z.min la lb))) (
 Definition scratch_run (la lb words : Z) : bool :=
   match mul_gen 8 (2 ^ 64 - 1) (S (Z.to_nat (Z.min la lb))) (Z.max la lb) (Z.min la lb) (chunk 8 4096 words) with Ok _ => true | _ => false end.
 Extraction "model.ml"
-  step64 step2_64 step3_64 drop_all64 layout_ok64 repr_ok64 rvalue64 signed_cap rwords rcap mem0 zero
+  step64 step2_64 step3_64 step5_64 drop_all64 layout_ok64 repr_ok64 rvalue64 signed_cap rwords rcap mem0 zero
   default_capacity64 max_compact_capacity64 nlive nwords scratch_reserved scratch_demand scratch_run.
